@@ -190,8 +190,11 @@ class DFXPReader(BaseReader):
         microseconds += int(clock_time_match.group('seconds')) * \
                         MICROSECONDS_PER_UNIT["seconds"]
         if clock_time_match.group('sub_frames'):
-            microseconds += int(clock_time_match.group('sub_frames').ljust(
-                3, '0')) * MICROSECONDS_PER_UNIT["milliseconds"]
+            # the fraction may have any number of digits: scale it by its
+            # own length (".5" = 500 ms, ".1234" = 123 ms 400 us)
+            sub_frames = clock_time_match.group('sub_frames')
+            microseconds += (int(sub_frames) * MICROSECONDS_PER_UNIT["seconds"]
+                             // 10 ** len(sub_frames))
         elif clock_time_match.group('frames'):
             microseconds += int(clock_time_match.group('frames')) / 30 * \
                             MICROSECONDS_PER_UNIT["seconds"]
